@@ -394,6 +394,23 @@ func ReadCanon(newIter func(o *pebble.IterOptions) (*pebble.Iterator, error), o 
 // DB returns the run's current database.
 func (r *Run) DB() *pebble.DB { return r.db }
 
+func (r *Run) setDB(db *pebble.DB) {
+	r.dbMu.Lock()
+	r.db = db
+	r.dbMu.Unlock()
+}
+
+// CurrentDB returns the current database; safe to call from other goroutines
+// (file-system observers).
+func (r *Run) CurrentDB() *pebble.DB {
+	r.dbMu.Lock()
+	defer r.dbMu.Unlock()
+	return r.db
+}
+
+// Quiesce closes all iterators, snapshots, EFOS and batches.
+func (r *Run) Quiesce() { r.quiesce() }
+
 // Opts returns the options the current DB was opened with.
 func (r *Run) Opts() *pebble.Options { return r.opts }
 
@@ -466,7 +483,7 @@ func (r *Run) CrashRestart(newFS vfs.FS, st *model.State) {
 	r.iters, r.snaps, r.efos, r.bats = nil, nil, nil, nil
 	if r.db != nil {
 		r.db.Close()
-		r.db = nil
+		r.setDB(nil)
 	}
 	if r.fileCache != nil {
 		r.fileCache.Unref()
@@ -490,7 +507,7 @@ func (r *Run) CrashRestart(newFS vfs.FS, st *model.State) {
 		r.fail("reopen-error", "Open after crash: %v", err)
 		return
 	}
-	r.db = db
+	r.setDB(db)
 	r.Cfg.FMV = int(db.FormatMajorVersion())
 }
 
@@ -526,6 +543,7 @@ type Run struct {
 	sawShadow  bool
 	ingestN int
 	OptsHook func(o *pebble.Options)
+	dbMu     sync.Mutex
 	soft     map[string]int
 	NoSyncWrites bool
 	Extra    []ExtraStep // additional weighted steps supplied by other engines
